@@ -279,6 +279,43 @@ func (st *c03store) check(v *c03ver, when string) bool {
 	if want := sortedPairs(v.model); fmt.Sprint(got) != fmt.Sprint(want) {
 		return bad("iteration-mismatch", "Iterator yields %v (key*100000+value, sorted), reference %v", got, want)
 	}
+	// the same through a loop bounded by Size(): Next() is called Size() times with a HasNext only before every
+	// second one, then the iterator must say it is exhausted
+	var got2 []int
+	nextN := func(hasNext func() bool, next func() int) string {
+		for i := 0; i < size; i++ {
+			if i%2 == 1 && !hasNext() {
+				return fmt.Sprintf("HasNext is false after %d of %d entries", i, size)
+			}
+			got2 = append(got2, next())
+		}
+		if hasNext() {
+			return fmt.Sprintf("HasNext is still true after Size()=%d calls of Next", size)
+		}
+		return ""
+	}
+	var msg string
+	func() {
+		defer func() {
+			if e := recover(); e != nil {
+				msg = fmt.Sprintf("Next panicked after %d of %d entries: %v", len(got2), size, e)
+			}
+		}()
+		if v.isSet {
+			it := v.s.Iterator()
+			msg = nextN(it.HasNext, func() int { return st.c(it.Next())*100000 + 1 })
+		} else {
+			it := v.m.Iterator()
+			msg = nextN(it.HasNext, func() int { t := it.Next(); return st.c(t.I1)*100000 + t.I2 })
+		}
+	}()
+	if msg != "" {
+		return bad("iteration-mismatch", "iterating with a loop bounded by Size(): %s", msg)
+	}
+	sort.Ints(got2)
+	if want := sortedPairs(v.model); fmt.Sprint(got2) != fmt.Sprint(want) {
+		return bad("iteration-mismatch", "Iterator read with a loop bounded by Size() yields %v (key*100000+value, sorted), reference %v", got2, want)
+	}
 	return true
 }
 
